@@ -984,6 +984,9 @@ class Interp:
                 return
             fr.env[tgt.id] = v
             fr.defdepth[tgt.id] = fr.loopdepth
+            if self.config.get('emit_lets') and v[0] not in ('const', 'sym', 'bvar'):
+                # evaluation point of a local assignment (opt-in: rules that must see eager evaluation errors)
+                self.emit(Eff('let', fr.func, s, var=tgt.id, value=v))
             return
         if isinstance(tgt, (ast.Tuple, ast.List)):
             for k, e in enumerate(tgt.elts):
